@@ -864,6 +864,12 @@ func (e *Engine) unop(st *State, fr *Frame, x *ssa.UnOp) {
 		e.nilCheck(st, v, x)
 		pi := ptrInfo(v)
 		fr.regs[x] = st.loadAt(pi, x.Type())
+		if g, ok := x.X.(*ssa.Global); ok && g.Pkg.Pkg.Path() == "io" && (g.Name() == "EOF" || g.Name() == "ErrUnexpectedEOF") {
+			// sentinel errors of package io: non-nil and pairwise distinct
+			eof := e.ioGlobalErr(st, "EOF")
+			ueof := e.ioGlobalErr(st, "ErrUnexpectedEOF")
+			st.assume(Not(e.ifaceEq(st, eof, ueof)))
+		}
 	case token.NOT:
 		fr.regs[x] = Val{x.Type(), []*Term{Not(v.t())}}
 	case token.SUB:
@@ -1236,7 +1242,11 @@ func (e *Engine) ifaceEq(st *State, a, b Val) *Term {
 	}
 	if cands == nil {
 		// unknown dynamic types: identical payload reference implies equality; different tags implies inequality
-		r := FreshVar("ifeq", BoolSort)
+		x, y := a, b
+		if x.iTag().id > y.iTag().id || (x.iTag() == y.iTag() && x.iPl().id > y.iPl().id) {
+			x, y = y, x
+		}
+		r := App("ifeq", BoolSort, x.iTag(), x.iPl(), y.iTag(), y.iPl())
 		st.assume(Implies(Not(tagEq), Not(r)))
 		st.assume(Implies(And(tagEq, Eq(a.iPl(), b.iPl())), r))
 		return r
